@@ -116,10 +116,25 @@ func checkC12(c *Ctx, r *Result, tier string) {
 		}
 	}
 	r.Floor("R12b-table-ops", len(ops), 4)
-	// same key
+	// same key (a helper's parameter stands for the argument it is called with)
+	keyPath := func(o tableOp) string {
+		if prm, isPrm := unspill(o.key).(*ssa.Parameter); isPrm && o.fn != blockFn && o.fn.Parent() == nil {
+			for _, base := range append([]*ssa.Function{blockFn}, blockFn.AnonFuncs...) {
+				for _, site := range staticCalleesIn(c, base)[o.fn] {
+					args := callArgs(site.Common())
+					for i, p := range o.fn.Params {
+						if p == prm && i < len(args) {
+							return accessPath(args[i])
+						}
+					}
+				}
+			}
+		}
+		return accessPath(o.key)
+	}
 	keys := map[string]int{}
 	for _, o := range ops {
-		keys[accessPath(o.key)]++
+		keys[keyPath(o)]++
 	}
 	if len(keys) != 1 {
 		var ks []string
@@ -366,19 +381,64 @@ func c12Bypass(c *Ctx, r *Result, fn *ssa.Function, lock LockOp, fOwners *types.
 			look = l
 		}
 	}
-	if look == nil {
-		r.Undecide("R12c: no comma-ok lookup of the owner table in %s", key)
-		return
-	}
 	var okV, ownerV ssa.Value
-	for _, ref := range *look.Referrers() {
-		if e, ok := ref.(*ssa.Extract); ok {
-			if e.Index == 1 {
-				okV = e
-			} else {
-				ownerV = e
+	var startBlock *ssa.BasicBlock
+	if look == nil {
+		// the lookup may sit in a helper that returns (…, owner, present): map its results
+		allInstrs(fn, func(in ssa.Instruction) {
+			call, ok := in.(*ssa.Call)
+			if !ok || call.Call.StaticCallee() == nil || okV != nil {
+				return
+			}
+			h := call.Call.StaticCallee()
+			if !c.modFuncSet[h] || len(h.Blocks) == 0 {
+				return
+			}
+			var hl *ssa.Lookup
+			for _, a := range elemAccessesOf(h, fOwners) {
+				if l, ok := a.Instr.(*ssa.Lookup); ok && l.CommaOk {
+					hl = l
+				}
+			}
+			if hl == nil {
+				return
+			}
+			for i := 0; i < h.Signature.Results().Len(); i++ {
+				rvs := returnedValues(h, i)
+				if len(rvs) != 1 {
+					continue
+				}
+				if e, isE := unspill(rvs[0]).(*ssa.Extract); isE && e.Tuple == ssa.Value(hl) {
+					for _, ref := range *call.Referrers() {
+						if ce, isCE := ref.(*ssa.Extract); isCE && ce.Index == i {
+							if e.Index == 1 {
+								okV = ce
+							} else {
+								ownerV = ce
+							}
+						}
+					}
+				}
+			}
+			if okV != nil {
+				startBlock = call.Block()
+			}
+		})
+		if okV == nil || ownerV == nil {
+			r.Undecide("R12c: no comma-ok lookup of the owner table in %s", key)
+			return
+		}
+	} else {
+		for _, ref := range *look.Referrers() {
+			if e, ok := ref.(*ssa.Extract); ok {
+				if e.Index == 1 {
+					okV = e
+				} else {
+					ownerV = e
+				}
 			}
 		}
+		startBlock = look.Block()
 	}
 	// evaluate a condition under an assignment; returns (value, known)
 	var eval func(v ssa.Value, present, same bool) (bool, bool)
@@ -387,7 +447,52 @@ func c12Bypass(c *Ctx, r *Result, fn *ssa.Function, lock LockOp, fOwners *types.
 		if v == okV {
 			return present, true
 		}
+		if cv, isC := v.(*ssa.Const); isC && cv.Value != nil {
+			switch cv.Value.String() {
+			case "true":
+				return true, true
+			case "false":
+				return false, true
+			}
+		}
 		switch x := v.(type) {
+		case *ssa.Phi:
+			// a flag built by && / ||: follow the branches from the dominator of the phi's block
+			// under this assignment and take the edge that is reached
+			idom := x.Block().Idom()
+			if idom == nil {
+				return false, false
+			}
+			b, prev := idom, (*ssa.BasicBlock)(nil)
+			for steps := 0; steps < 20 && b != x.Block(); steps++ {
+				last := b.Instrs[len(b.Instrs)-1]
+				prev = b
+				switch t := last.(type) {
+				case *ssa.If:
+					cv, k := eval(t.Cond, present, same)
+					if !k {
+						return false, false
+					}
+					if cv {
+						b = b.Succs[0]
+					} else {
+						b = b.Succs[1]
+					}
+				case *ssa.Jump:
+					b = b.Succs[0]
+				default:
+					return false, false
+				}
+			}
+			if b != x.Block() || prev == nil {
+				return false, false
+			}
+			for i, pr := range x.Block().Preds {
+				if pr == prev {
+					return eval(x.Edges[i], present, same)
+				}
+			}
+			return false, false
 		case *ssa.UnOp:
 			if x.Op == token.NOT {
 				b, k := eval(x.X, present, same)
@@ -409,7 +514,7 @@ func c12Bypass(c *Ctx, r *Result, fn *ssa.Function, lock LockOp, fOwners *types.
 		}
 		return false, false
 	}
-	start := look.Block()
+	start := startBlock
 	lockBlock := lock.Instr.Block()
 	type res struct{ locks, known bool }
 	results := map[[2]bool]res{}
